@@ -168,7 +168,7 @@ void h_read(void) { void *d; uint8_t *b; vg_havoc(); lha_lh1_read(d, b); VG_CANA
                                  : (VG_ND(x).child_index >= 1 && VG_ND(x).child_index < VG_NN && \
                                     VG_ND(VG_ND(x).child_index).parent == (x) && VG_ND(VG_ND(x).child_index - 1).parent == (x)))
 
-#define VG_TMAX 16
+#define VG_TMAX 6
 static unsigned vg_T[VG_TMAX], vg_nT;
 static void vg_T_add(unsigned k) { if (k < VG_NN && vg_nT < VG_TMAX) vg_T[vg_nT++] = k; }
 static void vg_T_add_with_leader(unsigned k)
@@ -202,7 +202,7 @@ void h_inf_sib(void)
 	vg_havoc();
 	__CPROVER_assume(n >= 1 && n < VG_NN && x < VG_NN && y < VG_NN && f1 < VG_NN && f2 < VG_NN);
 	vg_nT = 0;
-	vg_T_add_with_leader(x); vg_T_add_with_leader(y); vg_T_add_with_leader(n - 1u); vg_T_add_with_leader(n); vg_T_add_with_leader(n + 1u);
+	vg_T_add(x); vg_T_add(y); vg_T_add(n - 1u); vg_T_add(n); vg_T_add(n + 1u);
 	vg_assume_sib(f1, f2);
 	__CPROVER_assume(VG_LD(VG_G(n)) == n);                      /* n is the leader of its group (S5) */
 	fx = VG_F(x); gx = VG_G(x); fn = VG_F(n);
@@ -258,7 +258,7 @@ void h_walk_step_sib(void)
 	l = VG_LD(VG_G(n));
 	__CPROVER_assume(l >= 1);                                   /* S3: the root is alone in its group */
 	vg_nT = 0;
-	vg_T_add_with_leader(x); vg_T_add_with_leader(y); vg_T_add_with_leader(l - 1u); vg_T_add_with_leader(l); vg_T_add_with_leader(l + 1u); vg_T_add(n);
+	vg_T_add(x); vg_T_add(y); vg_T_add(l - 1u); vg_T_add(l); vg_T_add(l + 1u); vg_T_add(n);
 	vg_assume_sib(f1, f2);
 	l = make_group_leader(&vg_dec, n);
 	increment_node_freq(&vg_dec, l);
